@@ -29,6 +29,7 @@ SRC = os.path.join(REPO, "src")
 
 HDR = "register q[2]\n"
 USE_BODY = "register q[2]\nprepare_all\na q[0]\nmeasure_all\n"
+X_BODY = "register q[2]\nprepare_all\nX q[0]\nmeasure_all\n"
 
 # name -> (entry point, text)
 CALLS = {
@@ -51,6 +52,16 @@ CALLS = {
     "use-abs": ("auto", "from vpulses usepulses *\n" + USE_BODY),
     "use-rel-missing": ("auto", "from .nopulses usepulses *\n" + USE_BODY),
     "use-abs-missing": ("auto", "from nopulses usepulses *\n" + USE_BODY),
+    # the bare relative module name (a DOTIDENTIFIER may be a lone dot)
+    "use-dot": ("auto", "from . usepulses *\n" + USE_BODY),
+    # a gate that the pulse module defines AND that the inject_pulses calls below override
+    "use-abs-x": ("auto", "from vpulses usepulses *\n" + X_BODY),
+    "use-rel-x": ("auto", "from .vpulses usepulses *\n" + X_BODY),
+    # usepulses combined with inject_pulses = {X(q, theta)}: the injected X wins over the module's X(q)
+    "inj-abs": ("autoinj", "from vpulses usepulses *\n" + HDR + "prepare_all\nX q[0] 0.5\nH q[1]\nmeasure_all\n"),
+    "inj-rel": ("autoinj", "from .vpulses usepulses *\n" + HDR + "prepare_all\nX q[0] 0.5\nH q[1]\nmeasure_all\n"),
+    # ... and one that fails semantically after the pulses were loaded (arity of the injected X)
+    "inj-abs-bad": ("autoinj", "from vpulses usepulses *\n" + X_BODY),
     # an unknown gate when pulses are loaded
     "use-abs-nogate": ("auto", "from vpulses usepulses *\nregister q[2]\nnosuchgate q[0]\n"),
     # header-only parse of a text with a body (does not go through parse_jaqal_string)
@@ -67,11 +78,12 @@ CALLS = {
 # the alphabet of the explored state graph (order = simplest first)
 ALPHABET = (
     "ok", "syn-mid", "syn-eof", "illegal", "semantic", "index-let",
-    "use-rel", "use-abs", "use-rel-missing", "use-abs-missing",
+    "use-rel", "use-abs", "use-rel-missing", "use-abs-missing", "use-dot",
+    "use-abs-x", "inj-abs", "inj-rel", "inj-abs-bad",
     "header", "emulate", "sexpr",
 )
 # calls added in the thorough tier
-EXTRA = ("redefine", "zero-reg", "use-abs-nogate", "emulate-bad", "run-string", "sexpr-bad")
+EXTRA = ("redefine", "zero-reg", "use-abs-nogate", "use-rel-x", "emulate-bad", "run-string", "sexpr-bad")
 
 FUEL = 400000
 
@@ -132,10 +144,23 @@ def show_result(res):
     return json.dumps({"subcircuits": subs, "readouts": reads}, sort_keys=True)
 
 
+def _injected_x():
+    """inject_pulses for the `autoinj` calls: X with an extra angle, unlike the fixture module's X(q)"""
+    import numpy as np
+    from jaqalpaq.core import GateDefinition, Parameter, ParamType
+
+    def rx(theta):
+        c, s = np.cos(theta / 2), np.sin(theta / 2)
+        return np.array([[c, -1j * s], [-1j * s, c]], dtype=complex)
+
+    return {"X": GateDefinition("X", [Parameter("q", ParamType.QUBIT), Parameter("theta", ParamType.FLOAT)], ideal_unitary=rx)}
+
+
 def show_circuit(c):
     from jaqalpaq.generator import generate_jaqal_program
 
-    return generate_jaqal_program(c) + "\n# native gates: " + " ".join(sorted(c.native_gates))
+    native = ["%s/%d" % (n, len(g.parameters)) for n, g in sorted(c.native_gates.items())]
+    return generate_jaqal_program(c) + "\n# native gates: " + " ".join(native)
 
 
 def perform(ep, text):
@@ -148,6 +173,12 @@ def perform(ep, text):
         from jaqalpaq.parser import parse_jaqal_string
 
         return show_circuit(parse_jaqal_string(text, autoload_pulses=True, import_path=FIX))
+    if ep == "autoinj":
+        from jaqalpaq.parser import parse_jaqal_string
+
+        return show_circuit(
+            parse_jaqal_string(text, inject_pulses=_injected_x(), autoload_pulses=True, import_path=FIX)
+        )
     if ep == "header":
         from jaqalpaq.parser.parser import parse_jaqal_string_header
 
@@ -193,11 +224,14 @@ def one_call(name):
         numpy.random.seed(0)
     try:
         with fuel(FUEL):
-            return {"ok": _ADDR.sub("0x?", perform(ep, text))}
+            out = {"ok": _ADDR.sub("0x?", perform(ep, text))}
     except OutOfFuel:
-        return {"exc": "OutOfFuel", "mro": [], "msg": "fuel exhausted (%d steps)" % FUEL}
+        out = {"exc": "OutOfFuel", "mro": [], "msg": "fuel exhausted (%d steps)" % FUEL}
     except Exception as e:  # noqa: BLE001 - the outcome *is* the exception
-        return describe_exception(e)
+        out = describe_exception(e)
+    if "" in sys.modules:  # left in place: what it does to later calls is part of the history
+        out["leak"] = "sys.modules has an empty-string key"
+    return out
 
 
 def main(argv):
